@@ -351,8 +351,11 @@ def monitor_report(chk, napps=2):
     apps = mk_vec([Tree({}, 'app%d' % i, 'common::App') for i in range(napps)], 'Vec<common::App>')
     st0 = State()
     st0.cells['apps'] = apps
-    st0.cells['nv'] = Tree({0: Tree({0: Sc(z3.String('k0'), 'str'), 1: Tree({}, 'nv0', 'std::option::Option<String>')}, None, None)}, None,
-                           'HashMap<String, Option<String>>', meta=('map', 1))
+    nmap = 2
+    st0.cells['nv'] = Tree(dict((j, Tree({0: Sc(z3.String('k%d' % j), 'str'), 1: Tree({}, 'nv%d' % j, 'std::option::Option<String>')}, None, None)) for j in range(nmap)), None,
+                           'HashMap<String, Option<String>>', meta=('map', nmap))
+    o2 = chk.ob('report-events-per-app', 'in a report every app of the list that has an entry in the offered-versions map gets exactly one event, whose next version is that app\'s own map value (present or absent) - never one left over from another app - and apps without an entry get none; two apps, two map entries with arbitrary keys')
+    D2 = Decide(chk, ex, o2, cross=False)
     ev = Tree({}, 'event', 'protocol::request::Event')
     res = drive_async(ex, fn, [Ptr('sm'), Ptr('params'), ev, Ptr('apps'), Ptr('sid'), Ptr('nv'), Tree({}, 'dur', 'std::option::Option<std::time::Duration>'), Ptr('co')], st0)
     nfail = nok = 0
@@ -369,6 +372,40 @@ def monitor_report(chk, napps=2):
         others = [e for e in st.trace if e.kind in ('env', 'model', 'yield') and e.name not in ('do_omaha_request', 'GUID::new') and not e.name.endswith('report_metrics')]
         if others:
             D.failed = D.failed or ('violated', 'report did more than one exchange: %s' % story(ex, st), None, st)
+        # per-app events against the map
+        from tailmon import report_events
+        got = {}
+        for av, evv in report_events(ex, st, oms[0][1]):
+            m_ = re.match(r'^app(\d+)$', getattr(av, 'origin', '') or '')
+            if not m_:
+                D2.failed = D2.failed or ('inconclusive', 'event for an unidentified app %r' % (av,), None, st)
+                continue
+            got.setdefault(int(m_.group(1)), []).append(evv)
+        for i in range(napps):
+            idt = as_str(ex, st, ex.child(st, Tree({}, 'app%d' % i, 'common::App'), fidx(ex, 'common::App', 'id'), 'String')).t
+            live = None
+            undecided = False
+            for j in range(nmap):
+                eqj = dval(ex, st, z3.String('k%d' % j) == idt)
+                if eqj is None:
+                    undecided = True
+                elif eqj == 1:
+                    live = j
+            if undecided:
+                continue        # the code did not look this entry up on the path
+            evs_i = got.get(i, [])
+            if live is None:
+                if evs_i:
+                    D2.failed = D2.failed or ('violated', 'an event for app %d although it has no entry in the offered-versions map' % i, None, st)
+                continue
+            if len(evs_i) != 1:
+                D2.failed = D2.failed or ('violated', '%d events for app %d, expected one' % (len(evs_i), i), None, st)
+                continue
+            nvv = ex.child(st, evs_i[0], fidx(ex, 'protocol::request::Event', 'next_version'), 'std::option::Option<String>')
+            want = Tree({}, 'nv%d' % live, 'std::option::Option<String>')
+            dn, dw = ex.discr_of(st, nvv).t, ex.discr_of(st, want).t
+            D2.require(st, z3.And(dn == dw, z3.Implies(dn == 1, as_str(ex, st, payload(ex, st, nvv, 1, 0, 'String')).t == as_str(ex, st, payload(ex, st, want, 1, 0, 'String')).t)),
+                       'next version of app %d\'s event == its own entry in the map' % i)
         if oc and oc[0] == 'Err':
             nfail += 1
             if [m[0] for m in mets] != ['OmahaEventLost']:
@@ -386,5 +423,8 @@ def monitor_report(chk, napps=2):
     f = D.done()
     if f and f[0] == 'violated':
         o.key = o.name
+    f2 = D2.done()
+    if f2 and f2[0] == 'violated':
+        o2.key = o2.name
     chk.absorb(ex)
     return D
